@@ -11,7 +11,7 @@ import subprocess
 import sys
 
 HERE = os.path.dirname(os.path.dirname(os.path.abspath(__file__)))
-ROOTS = sys.argv[1:] or ["/tmp/wt", "/tmp/wt2", "/tmp/wt3", "/tmp/wt4", "/tmp/wt5", "/tmp/wt6", "/tmp/wt7"]
+ROOTS = sys.argv[1:] or ["/tmp/wt", "/tmp/wt2", "/tmp/wt3", "/tmp/wt4", "/tmp/wt5", "/tmp/wt6", "/tmp/wt7", "/tmp/wt8"]
 BUILT = [l.strip() for l in open(os.path.join(HERE, "tools", "built.txt")) if l.strip()]
 
 
@@ -99,7 +99,7 @@ def main():
                 "origin": "written by an independent sub-agent that saw only the property "
                           "text and a scratch worktree of /repo (nothing from /verif)"
                           + ("; second round: told which earlier seeds to avoid repeating"
-                             if SRC.endswith(("wt2", "wt3", "wt4", "wt5", "wt6", "wt7")) else ""),
+                             if SRC.endswith(("wt2", "wt3", "wt4", "wt5", "wt6", "wt7", "wt8")) else ""),
                 "needs_to_manifest": _needs(notes),
                 "confirmed_by_me": {
                     "how": "tools/confirm_seed.sh in a fresh scratch worktree of /repo: demo at "
